@@ -127,6 +127,14 @@ pub trait Engine: Sync + Send {
     fn gen_tag(&self) -> Option<String> {
         None
     }
+    /// a small enumerated boundary block for children that are orders of magnitude slower than native code (VERIF_MINI,
+    /// the 32-bit target tier): boundary operands crossed with each other on a spread of layouts
+    fn mini_len(&self, _prop: &str) -> u64 {
+        0
+    }
+    fn mini_case(&self, _prop: &str, _i: u64) -> Case {
+        Case::default()
+    }
     /// a sibling of the case — the same operand bits in another layout of the same width — used for the history check
     /// (`eval_hist`): the library's functions are pure, so a call's result must not depend on the calls made before it
     fn echo(&self, _prop: &str, _c: &Case) -> Option<Case> {
@@ -668,8 +676,15 @@ pub fn run<E: Engine + ?Sized>(e: &E, cfg: &RunCfg) -> RunResult {
 
     let stop = AtomicBool::new(false);
     let w = cfg.threads.max(1);
-    let exh_len = e.exh_len(prop, cfg.tier);
-    let budget = e.budget(prop, cfg.tier);
+    // VERIF_MINI=<n>: a very small run (n generated cases per worker from the free strategy, nothing else) for a child
+    // that is orders of magnitude slower than a native one (the profile-pair child interpreted by Miri for a 32-bit target)
+    let mini: Option<u64> = std::env::var("VERIF_MINI").ok().and_then(|s| s.parse().ok());
+    let exh_len = if mini.is_some() { e.mini_len(prop) } else { e.exh_len(prop, cfg.tier) };
+    let mut budget = e.budget(prop, cfg.tier);
+    if let Some(n) = mini {
+        budget.per_stratum = 0;
+        budget.random = n * cfg.threads.max(1) as u64;
+    }
     let scale = |n: u64| -> u64 { ((n as f64) * cfg.scale).ceil() as u64 };
     let results: Mutex<Vec<(Acc, Vec<Violation>)>> = Mutex::new(Vec::new());
     let base_seed = splitmix(cfg.seed ^ str_hash(prop));
@@ -687,7 +702,7 @@ pub fn run<E: Engine + ?Sized>(e: &E, cfg: &RunCfg) -> RunResult {
                 let mut i = wi as u64;
                 let mut exh_fail = 0;
                 while i < exh_len && !stop.load(Ordering::Relaxed) {
-                    let c = e.exh_case(prop, cfg.tier, i);
+                    let c = if mini.is_some() { e.mini_case(prop, i) } else { e.exh_case(prop, cfg.tier, i) };
                     let ev = e.eval(prop, &c, cfg.chk, kf);
                     acc.record(e, prop, &c, &ev);
                     if !ev.fails.is_empty() {
@@ -724,7 +739,7 @@ pub fn run<E: Engine + ?Sized>(e: &E, cfg: &RunCfg) -> RunResult {
                 }
                 // 5. targeted search on the engine's score
                 let (cs, cn) = e.climb_budget(prop, cfg.tier);
-                if cn > 0 && !stop.load(Ordering::Relaxed) && std::env::var_os("VERIF_NO_CLIMB").is_none() {
+                if cn > 0 && !stop.load(Ordering::Relaxed) && std::env::var_os("VERIF_NO_CLIMB").is_none() && std::env::var_os("VERIF_MINI").is_none() {
                     let seed = splitmix(base_seed ^ (0xC11B_0000 + wi as u64).wrapping_mul(0xA24B_AED4_963E_E407));
                     if let Some(v) = climb_pass(e, cfg, kf, scale(cs), cn, seed, &mut acc, stop) {
                         viols.push(v);
@@ -1006,7 +1021,8 @@ fn run_pair_all<E: Engine>(e: &E, args: &[String], selftests: u64) -> i32 {
     let mut rc = 0;
     for g in e.pair_gens() {
         if let Some(o) = &only {
-            if o != g {
+            // one generator or a comma-separated list
+            if !o.split(',').any(|x| x == g) {
                 continue;
             }
         }
